@@ -35,6 +35,8 @@ CONSTANTS
   M_CommitMax,             \* stream.commit keeps the maximum
   M_BusyTakesAll,          \* an action that holds a run receives EVERY event of the stream, also one its selector does not match
   M_SpawnFlushesBusy,      \* processor.Spawn ends by sending a time-out event to every busy action
+  M_DiscardResetsBusy,     \* an action that answers ActionDiscard is no longer busy (doActions: tryResetBusy) -- class K: a run of collapsed
+                           \* chunks without a held event (the k8s multi-line action) ends that way when its time-out comes
   M_RefusedBackOnce,       \* an event refused by the input's PassEvent is returned to the pool exactly once
   M_TimerFlushesAny        \* the batch heartbeat seals ANY non-empty open batch, also one that holds only split parents
 
@@ -251,6 +253,7 @@ DoAct(p) ==
                                       [] cls \in {"S", "Y"} /\ KidsPer > 0 -> "spawn" [] OTHER -> "pass")
                 ELSE (CASE cls = "H" -> "hold"
                         [] cls = "C" -> IF pr[p].held # 0 THEN "collapse" ELSE "pass"
+                        [] cls = "K" -> "collapse"                             \* a chunk: kept by the action itself, nothing is held
                         [] OTHER -> "pass")
          notify == ~M_NoNotifyOnDiscard
      IN /\ sched' = IF e = 0 THEN sched ELSE Append(sched, <<"do", e, a>>)
@@ -270,7 +273,9 @@ DoAct(p) ==
                   /\ obs' = ODo(obs, e, res)
                   /\ UNCHANGED <<st, charged, inUse>>
              [] res = "discard" /\ e = 0 ->                                   \* finalize ignores time-out events
-                  /\ pr' = [pr EXCEPT ![p] = [@ EXCEPT !.pc = IF pr[p].busy THEN "blockget" ELSE "get", !.ev = 0]]
+                  \* (a held run was flushed before: Flush; what can still be busy here is a run of chunks, which the action drops)
+                  /\ LET b2 == IF M_DiscardResetsBusy THEN FALSE ELSE pr[p].busy
+                     IN pr' = [pr EXCEPT ![p] = [@ EXCEPT !.busy = b2, !.pc = IF b2 THEN "blockget" ELSE "get", !.ev = 0]]
                   /\ UNCHANGED <<st, charged, inUse, obs>>
              [] res \in {"discard", "collapse"} /\ e # 0 ->
                   LET f == Finalize(e, notify, TRUE, "proc", st, charged, inUse, ODo(obs, e, res)) IN
